@@ -16,6 +16,7 @@ import (
 	"context"
 	"fmt"
 	"hash/fnv"
+	"runtime"
 	"runtime/debug"
 	"sort"
 	"strconv"
@@ -45,6 +46,7 @@ type G struct {
 	prio   int64 // for the priority strategy
 	Lib    bool  // created by instrumented library code (as opposed to a harness task)
 	steps  int
+	gid    int64 // real goroutine id (paranoid mode)
 }
 
 func (g *G) State() string {
@@ -140,6 +142,36 @@ type Sim struct {
 
 var cur atomic.Pointer[Sim]
 
+// Paranoid makes every runtime entry point verify, with real goroutine ids,
+// that its caller is the token holder (the single-runner invariant that the
+// handle-passing scheme otherwise takes on trust). Used by the self-test.
+var Paranoid bool
+
+func goid() int64 {
+	var buf [64]byte
+	n := runtime.Stack(buf[:], false)
+	// "goroutine 123 [running]:"
+	f := strings.Fields(string(buf[:n]))
+	if len(f) < 2 {
+		return -1
+	}
+	id, _ := strconv.ParseInt(f[1], 10, 64)
+	return id
+}
+
+func (s *Sim) checkRunner(where string) {
+	if !Paranoid {
+		return
+	}
+	g := s.cur
+	if g == nil {
+		return
+	}
+	if id := goid(); g.gid != 0 && id != g.gid {
+		panic(fmt.Sprintf("HARNESS: single-runner invariant broken in %s: goroutine %d is running while %s (goroutine %d) holds the token", where, id, g.Name, g.gid))
+	}
+}
+
 // Cur returns the running simulation or nil.
 func Cur() *Sim { return cur.Load() }
 
@@ -189,6 +221,9 @@ func (s *Sim) start(g *G, fn func()) {
 		if s.dead.Load() {
 			return
 		}
+		if Paranoid {
+			g.gid = goid()
+		}
 		defer func() {
 			if r := recover(); r != nil {
 				if s.PanicMsg == "" {
@@ -219,6 +254,7 @@ func Go(site string, fn func()) {
 		return
 	}
 	p := s.cur
+	s.checkRunner("Go@" + site)
 	name := p.Name + "." + strconv.Itoa(p.nchild)
 	p.nchild++
 	g := s.newG(name, site, true)
@@ -246,6 +282,7 @@ func Yield(site string) *G {
 	if g == nil {
 		return nil
 	}
+	s.checkRunner("Yield@" + site)
 	s.park(g, site, nil)
 	return g
 }
@@ -277,6 +314,7 @@ func BeforeLock(site string, try func() bool) {
 	if g == nil {
 		return
 	}
+	s.checkRunner("BeforeLock/Block@" + site)
 	s.park(g, site, try)
 }
 
@@ -383,6 +421,9 @@ func (s *Sim) adopt(name, site string, fn func()) {
 	<-g.wake
 	if s.dead.Load() {
 		select {}
+	}
+	if Paranoid {
+		g.gid = goid()
 	}
 	defer func() {
 		if r := recover(); r != nil {
